@@ -167,8 +167,16 @@ class FnView(object):
       if self.cfg.dominates(best[0], d[0]):
         best = d
     n, st = best
-    if not (isinstance(st, ast.Assign) and len(st.targets) == 1 and
-            isinstance(st.targets[0], ast.Name)):
+    parallel = None
+    if isinstance(st, ast.Assign) and len(st.targets) == 1 and \
+        isinstance(st.targets[0], (ast.Tuple, ast.List)) and \
+        isinstance(st.value, (ast.Tuple, ast.List)) and \
+        len(st.targets[0].elts) == len(st.value.elts):
+      for t_, v_ in zip(st.targets[0].elts, st.value.elts):
+        if isinstance(t_, ast.Name) and t_.id == name_node.id:
+          parallel = v_
+    if parallel is None and not (isinstance(st, ast.Assign) and len(st.targets) == 1 and
+                                 isinstance(st.targets[0], ast.Name)):
       return None
     # no other definition can intervene between best and the use
     after = self.cfg.reachable(n)
@@ -179,7 +187,7 @@ class FnView(object):
         # o lies on some path best -> o -> use
         if o != use:
           return None
-    return st.value
+    return parallel if parallel is not None else st.value
 
   def assigned_from(self, name):
     """Value expressions assigned to local `name` (flow-insensitive)."""
